@@ -394,6 +394,7 @@ static MatrixSquareSymmetric sillMat(const Comp& c, int nvar)
 }
 
 // returns nullptr if the library refused (message / null); exceptions propagate to the caller
+static long g_caseIndex = 0; // set by run_case: lets buildModel alternate between variants without consuming draws
 static std::unique_ptr<Model> buildModel(const std::vector<Comp>& comps, int ndim, int nvar, int route, bool useScales,
                                          std::string& how)
 {
@@ -439,7 +440,16 @@ static std::unique_ptr<Model> buildModel(const std::vector<Comp>& comps, int ndi
         how = "CovAniso+setRotationAnglesAndRadius";
         cov.reset(new CovAniso(c.type, ctxt));
         cov->setParam(c.param);
-        if (flagRange) cov->setRotationAnglesAndRadius(angles, ranges, VectorDouble());
+        if (g_caseIndex % 2 == 1 && !angles.empty())
+        {
+          // the ranges (or scales) first, then the rotation ALONE through the same setter ("ranges" and "scales" are optional
+          // arguments of CovAniso::setRotationAnglesAndRadius): the distance must follow the new axes at once
+          how = "CovAniso+setRanges+setRotationAnglesAndRadius(angles)";
+          if (flagRange) cov->setRanges(ranges);
+          else cov->setScales(ranges);
+          cov->setRotationAnglesAndRadius(angles);
+        }
+        else if (flagRange) cov->setRotationAnglesAndRadius(angles, ranges, VectorDouble());
         else cov->setRotationAnglesAndRadius(angles, VectorDouble(), ranges);
         cov->setSill(sillMat(c, nvar));
       }
@@ -1253,6 +1263,7 @@ static std::vector<ECov> allTypes()
 
 static void run_case(Rng& r, Ctx& c)
 {
+  g_caseIndex = c.icase / 97; // independent of the (structure, dimension) pair, which is icase modulo 3 NT
   static const std::vector<ECov> types = allTypes();
   const int NT   = (int)types.size();
   const int pair = (int)(c.icase % (NT * 3));
